@@ -87,6 +87,11 @@ partial def parseSvc : List String → Option (Svc × List String)
   | "(" :: "mw" :: t => do
     let (s, t) ← parseSvc t
     match t with | k :: ")" :: t => some (.mw s (← num k), t) | _ => none
+  | "(" :: "reenter" :: wk :: k :: t => do
+    let wk ← wrapKind wk
+    let k ← num k
+    let (s, t) ← parseSvc t
+    match t with | ")" :: t => some (.reenter wk k s, t) | _ => none
   | "(" :: wk :: t => do
     let wk ← wrapKind wk
     let (s, t) ← parseSvc t
@@ -159,6 +164,11 @@ partial def parseFac : List String → Option (Fac × List String)
   | "(" :: "farc" :: t => do
     let (a, t) ← parseFac t
     match t with | ")" :: t => some (.rc a, t) | _ => none
+  | "(" :: "freenter" :: pk :: k :: t => do
+    let _ ← (match pk with | "rc" => some () | "arc" => some () | _ => none)
+    let k ← num k
+    let (a, t) ← parseFac t
+    match t with | ")" :: t => some (.reenter k a, t) | _ => none
   | _ => none
 
 def svcLeafIds : Svc → List Nat
@@ -170,6 +180,7 @@ def svcLeafIds : Svc → List Nat
   | .applyFn s _ _ => svcLeafIds s
   | .wrap _ s => svcLeafIds s
   | .mw s _ => svcLeafIds s
+  | .reenter _ _ s => svcLeafIds s
 
 def facLeafIds : Fac → List Nat
   | .leaf _ _ _ _ s => svcLeafIds s
@@ -186,6 +197,7 @@ def facLeafIds : Fac → List Nat
   | .unitConfig a => facLeafIds a
   | .boxed a => facLeafIds a
   | .rc a => facLeafIds a
+  | .reenter _ a => facLeafIds a
 
 def resStr : Res → String
   | .ok v => s!"ok:{v}"
@@ -217,6 +229,8 @@ def evtStr : Evt → String
   | .initErrMapped f e => s!"h{f}:{e}"
   | .newTransform t => s!"t{t}"
   | .cfgFn f cfg => s!"f{f}:{cfg}"
+  | .reent k req => s!"x{k}:{req}"
+  | .freent k cfg => s!"z{k}:{cfg}"
 
 def isPanic : Evt → Bool
   | .repoll .. => true
